@@ -4,6 +4,7 @@ package main
 
 import (
 	"fmt"
+	"go/ast"
 	"go/constant"
 	"go/token"
 	"go/types"
@@ -15,8 +16,9 @@ import (
 )
 
 type Fact struct {
-	seq int
-	t   *Term
+	seq    int
+	t      *Term
+	global bool // unconditional truth about the pre-state or a global (recorded once): never pruned by branch
 }
 
 type QFact struct {
@@ -39,6 +41,7 @@ type Obl struct {
 	Func  string
 	Src   string
 	skolems []*Term
+	blk   *ssa.BasicBlock // top-level block the obligation belongs to (nil: derive from seq)
 }
 
 type allocRec struct {
@@ -65,12 +68,61 @@ type fnExec struct {
 	errors   []string
 	strIDs   map[string]int
 	wfSeen     map[int]bool
+	blkMarks   []blkMark
+	reach      map[*ssa.BasicBlock]map[*ssa.BasicBlock]bool
 	opaque     map[*Term]*Term // opaque term -> exact definition
 	atCallHits map[*AtCall]int
 	variants   map[*loopInfo]*Term
 }
 
 type tokenPos = token.Pos
+
+type blkMark struct {
+	seq int
+	blk *ssa.BasicBlock
+}
+
+// blockAt returns the top-level basic block that was being executed when sequence number seq was issued.
+func (x *fnExec) blockAt(seq int) *ssa.BasicBlock {
+	lo, hi := 0, len(x.blkMarks)-1
+	var r *ssa.BasicBlock
+	for lo <= hi {
+		m := (lo + hi) / 2
+		if x.blkMarks[m].seq <= seq {
+			r = x.blkMarks[m].blk
+			lo = m + 1
+		} else {
+			hi = m - 1
+		}
+	}
+	return r
+}
+
+// canPrecede reports whether code of block a can execute before code of block b on some path of the loop-cut CFG.
+func (x *fnExec) canPrecede(a, b *ssa.BasicBlock) bool {
+	if a == nil || b == nil || a == b {
+		return true
+	}
+	if x.reach == nil {
+		x.reach = map[*ssa.BasicBlock]map[*ssa.BasicBlock]bool{}
+	}
+	m, ok := x.reach[a]
+	if !ok {
+		m = map[*ssa.BasicBlock]bool{}
+		var dfs func(c *ssa.BasicBlock)
+		dfs = func(c *ssa.BasicBlock) {
+			for _, s := range c.Succs {
+				if !m[s] && !isBackEdge(c, s) {
+					m[s] = true
+					dfs(s)
+				}
+			}
+		}
+		dfs(a)
+		x.reach[a] = m
+	}
+	return m[b]
+}
 
 type deferred struct {
 	instr *ssa.Defer
@@ -96,6 +148,7 @@ type retEdge struct {
 	st   *State
 	val  Val // tuple or single or zero Val{K:VTuple} for no result
 	idx  int
+	blk  *ssa.BasicBlock
 }
 
 type loopInfo struct {
@@ -116,7 +169,7 @@ func (x *fnExec) assume(st *State, t *Term) {
 	if t == True {
 		return
 	}
-	x.facts = append(x.facts, Fact{x.next(), Implies(st.pc, t)})
+	x.facts = append(x.facts, Fact{x.next(), Implies(st.pc, t), false})
 }
 
 func (x *fnExec) newEpoch(hint string) *epochExpr {
@@ -172,13 +225,13 @@ func (x *fnExec) load(st *State, p Val, t types.Type) Val {
 	v := unflatten(t, &ts)
 	x.recordRefs(v)
 	x.heapWF(st, v)
-	if strings.HasPrefix(p.Prefix, "G:Err") && v.K == VIface {
+	if (strings.HasPrefix(p.Prefix, "G:Err") || strings.HasPrefix(p.Prefix, "G:err")) && v.K == VIface {
 		// package-level error sentinels are initialised with errors.New and never reassigned
 		x.assumed["package-level Err* sentinels are non-nil"] = true
 		t := Not(Eq(v.Fs[0].T, BVU(0, 64)))
-		if !x.wfSeen[t.id] {
+		if !x.wfSeen[t.id] && !containsBVar(t) {
 			x.wfSeen[t.id] = true
-			x.facts = append(x.facts, Fact{x.next(), t})
+			x.facts = append(x.facts, Fact{x.next(), t, true})
 		}
 	}
 	return v
@@ -190,9 +243,9 @@ func (x *fnExec) heapWF(st *State, v Val) {
 	case VSlice:
 		if v.base().Op != "lit" {
 			t := sliceWF(v)
-			if !x.wfSeen[t.id] {
+			if !x.wfSeen[t.id] && !containsBVar(t) {
 				x.wfSeen[t.id] = true
-				x.facts = append(x.facts, Fact{x.next(), t})
+				x.facts = append(x.facts, Fact{x.next(), t, true})
 			}
 		}
 	case VStruct, VTuple:
@@ -254,7 +307,7 @@ func (x *fnExec) store(st *State, p Val, t types.Type, v Val) {
 
 func (x *fnExec) freshRef(st *State, hint string) *Term {
 	r := Fresh(hint, SRef)
-	x.facts = append(x.facts, Fact{x.next(), And(Not(Eq(r, BVU(0, 64))), App("newobj", SBool, r))})
+	x.facts = append(x.facts, Fact{x.next(), And(Not(Eq(r, BVU(0, 64))), App("newobj", SBool, r)), false})
 	x.allocs = append(x.allocs, allocRec{r, x.seq})
 	return r
 }
@@ -316,7 +369,7 @@ func (x *fnExec) globalRef(name string) *Term {
 	r := BVU(uint64(id)+1<<20, 64)
 	if !x.wfSeen[-id] {
 		x.wfSeen[-id] = true
-		x.facts = append(x.facts, Fact{x.next(), Not(App("newobj", SBool, r))})
+		x.facts = append(x.facts, Fact{x.next(), Not(App("newobj", SBool, r)), true})
 	}
 	return r
 }
@@ -430,18 +483,52 @@ func findLoops(fn *ssa.Function) map[*ssa.BasicBlock]*loopInfo {
 	for _, li := range loops {
 		hs = append(hs, li)
 	}
-	sort.Slice(hs, func(i, j int) bool { return loopPos(hs[i]) < loopPos(hs[j]) })
+	// source ranges of the loop statements of this function: only positions inside a loop statement identify a loop
+	// (phis and variables declared before the loops carry positions outside of them)
+	var ranges [][2]token.Pos
+	if syn := fn.Syntax(); syn != nil {
+		ast.Inspect(syn, func(n ast.Node) bool {
+			switch n.(type) {
+			case *ast.ForStmt, *ast.RangeStmt:
+				ranges = append(ranges, [2]token.Pos{n.Pos(), n.End()})
+			}
+			return true
+		})
+	}
+	pos := map[*loopInfo]token.Pos{}
+	for _, li := range hs {
+		pos[li] = loopPos(li, ranges)
+	}
+	sort.Slice(hs, func(i, j int) bool {
+		if pos[hs[i]] != pos[hs[j]] {
+			return pos[hs[i]] < pos[hs[j]]
+		}
+		return hs[i].header.Index < hs[j].header.Index
+	})
 	for i, li := range hs {
 		li.ordinal = i + 1
 	}
 	return loops
 }
 
-func loopPos(li *loopInfo) token.Pos {
+func loopPos(li *loopInfo, ranges [][2]token.Pos) token.Pos {
 	best := token.Pos(1 << 40)
 	for b := range li.body {
 		for _, in := range b.Instrs {
-			if p := in.Pos(); p.IsValid() && p < best {
+			if _, isPhi := in.(*ssa.Phi); isPhi {
+				continue
+			}
+			p := in.Pos()
+			if !p.IsValid() || p >= best {
+				continue
+			}
+			inLoop := len(ranges) == 0
+			for _, r := range ranges {
+				if r[0] <= p && p < r[1] {
+					inLoop = true
+				}
+			}
+			if inLoop {
 				best = p
 			}
 		}
@@ -496,6 +583,9 @@ func (x *fnExec) runFunc(fr *frame, st *State) []retEdge {
 		if cur.pc == False {
 			continue
 		}
+		if fr.depth == 0 {
+			x.blkMarks = append(x.blkMarks, blkMark{x.seq + 1, b})
+		}
 		// phis
 		li := fr.loops[b]
 		for _, instr := range b.Instrs {
@@ -545,7 +635,7 @@ func (x *fnExec) runFunc(fr *frame, st *State) []retEdge {
 						rv.Fs = append(rv.Fs, x.val(fr, r))
 					}
 				}
-				rets = append(rets, retEdge{cur.pc, cur, rv, len(rets)})
+				rets = append(rets, retEdge{cur.pc, cur, rv, len(rets), b})
 				ended = true
 			case *ssa.Panic:
 				if fr.safety {
